@@ -11,6 +11,7 @@ package serialization
 
 //@ func WriteVarUint
 //@   property C01
+//@   modifies wrIn
 //@   ghost var nw int = 0
 //@   set after "_, err := writer.Write(buf[:len])" : nw := nw + 1
 //@   ensures nw == 1
@@ -22,24 +23,31 @@ package serialization
 
 //@ func WriteUint8
 //@   property C01
+//@   modifies wrIn
 //@   callsite[encoding] Write#1 requires len(arg0) == 1 && arg0[0] == val
 //@ func WriteUint16
 //@   property C01
+//@   modifies wrIn
 //@   callsite[encoding] Write#1 requires len(arg0) == 2 && common.le16(arg0, 0) == val
 //@ func WriteUint32
 //@   property C01
+//@   modifies wrIn
 //@   callsite[encoding] Write#1 requires len(arg0) == 4 && common.le32(arg0, 0) == val
 //@ func WriteUint64
 //@   property C01
+//@   modifies wrIn
 //@   callsite[encoding] Write#1 requires len(arg0) == 8 && common.le64(arg0, 0) == val
 //@ func WriteByte
 //@   property C01
+//@   modifies wrIn
 //@   callsite[encoding] Write#1 requires len(arg0) == 1 && arg0[0] == val
 //@ func WriteBytes
 //@   property C01
+//@   modifies wrIn
 //@   callsite[encoding] Write#1 requires arg0 == value
 //@ func WriteVarBytes
 //@   property C01
+//@   modifies wrIn
 //@   callsite[length-prefix] WriteVarUint#1 requires arg1 == uint64(len(value))
 //@   callsite[payload] Write#1 requires arg0 == value
 
